@@ -198,9 +198,18 @@ def monitor(ctx, extended=False):
         for step in range(ctx.rng.choice([1, 1, 3])):
             water = ctx.rng.random() < 0.3
             if step:
-                # density change between queries at the same flow
-                p.slurry.Cv = E.pick_Cv(ctx.rng)
-                hist.append(f'Cv={p.slurry.Cv}')
+                # between queries at the same flow on the same pump object: the pumped density, the driver rating or the kind of driver limit is changed
+                what = ctx.rng.choice(['Cv', 'Cv', 'avail_power', 'limited'])
+                if what == 'Cv':
+                    p.slurry.Cv = E.pick_Cv(ctx.rng)
+                    hist.append(f'Cv={p.slurry.Cv}')
+                elif what == 'avail_power' and p.limited != 'curve':
+                    p.avail_power = p.avail_power * ctx.rng.choice([0.4, 0.6, 1.5, 2.5])
+                    hist.append(f'avail_power={p.avail_power}')
+                elif what == 'limited':
+                    modes_ = ['torque', 'power', 'None'] + (['curve'] if p.driver is not None else [])
+                    p.limited = ctx.rng.choice([m_ for m_ in modes_ if m_ != p.limited])
+                    hist.append(f'limited={p.limited!r}')
             inp = dict(describe(p, Q, water), history=list(hist))
             ctx.count('evaluations')
             before = snapshot(p)
@@ -225,6 +234,49 @@ def monitor(ctx, extended=False):
             else:
                 classes.add(cls)
             hist.append(f'point({Q}, water={water})')
+    # the corners of the documented box, exactly: set speed 0.6 / 1.0 x design, trim 0.8 / 1.0, flow 0.02 / 1.0 x curve range (and just inside them), every
+    # example pump, without a driver limit and with each of the others
+    for name_ in sorted(G.example_pumps()):
+        for mode_ in ('None', 'torque', 'power', 'curve'):
+            for sr_ in (0.6, 0.62, 1.0):
+                for ir_ in (0.8, 0.81, 1.0):
+                    for qf_ in (0.02, 0.97, 1.0):
+                        if ctx.stats.get('timeouts', 0) >= 3:
+                            break
+                        base_ = G.example_pumps()[name_]
+                        over_ = {'limited': mode_, 'avail_power': base_.avail_power * ctx.rng.choice([0.3, 1.0, 1.5])}
+                        if mode_ == 'curve':
+                            over_['gear_ratio'] = 1.0
+                            over_['driver'] = G.make_driver(ctx.rng, base_, 1.0, nameplate=over_['avail_power'])
+                            over_['driver_name'] = over_['driver'].name
+                        q_ = G.clone_pump(base_, **over_)
+                        q_._example = name_
+                        q_._sp = E.slurry_params(ctx.rng)
+                        q_.slurry = E.make_slurry(q_._sp, max_index=10)
+                        q_.current_speed = q_.design_speed * sr_
+                        q_.current_impeller = q_.design_impeller * ir_
+                        Q = max(q_.design_QH_curve.keys()) * qf_
+                        water = ctx.rng.random() < 0.5
+                        inp = dict(describe(q_, Q, water), history=['corner of the documented box'])
+                        ctx.count('evaluations')
+                        try:
+                            signal.alarm(10)
+                            try:
+                                r = q_.point(Q, water=water)
+                            finally:
+                                signal.alarm(0)
+                        except Timeout:
+                            ctx.violation('point() did not terminate within 10 s', inp, key='termination')
+                            ctx.count('timeouts')
+                            continue
+                        except Exception as e:   # noqa
+                            ctx.violation(f'point() raised {type(e).__name__}: {e}', inp, key='raised')
+                            continue
+                        bad, cls, key = oracle(q_, Q, water, r)
+                        if bad:
+                            ctx.violation(bad, inp, key=key)
+                        else:
+                            classes.add(cls)
     # two DIFFERENT pumps set to the same speed and impeller diameter, pumping the same slurry, asked at the same flow in turn: each answer is that
     # pump's own (nothing may be shared between pump objects)
     for _ in range(ctx.n(40, 1500)):
